@@ -173,6 +173,14 @@ func (aggComp) Gen(r *rand.Rand, tier string, n int) []*wire.Case {
 		a.Ops = append(a.Ops, more.Ops[1:]...)
 		cases = append(cases, a)
 	}
+	{
+		// more results than announced (server mode takes the count from the request, not from the configuration)
+		three := []aggIter{{36, 3, 290, []float64{10, 21, 36}, []float64{1, 2, 3}}, {66, 6, 295, []float64{20, 41, 66}, []float64{2, 4, 6}}, {96, 9, 280, []float64{30, 61, 96}, []float64{3, 6, 9}}}
+		a := aggCase("d-more-than-announced", 2, 3, three, identity(3))
+		a.Ops = append(a.Ops, aggCase("", 2, 3, three, []int{2, 1, 0}).Ops...)
+		a.Ops = append(a.Ops, aggCase("", 1, 3, three, []int{1, 2, 0}).Ops...)
+		cases = append(cases, a)
+	}
 	cases = append(cases, aggCase("d-none", 0, 2, nil, nil))
 	for i := 0; i < n; i++ {
 		k := 1 + r.Intn(40)
@@ -186,8 +194,13 @@ func (aggComp) Gen(r *rand.Rand, tier string, n int) []*wire.Case {
 			its[j] = genIter(r, kind, cycles)
 		}
 		// the same multiset of results in two arrival orders within one case
-		a := aggCase(fmt.Sprintf("r%d", i), k, cycles, its, identity(k))
-		b := aggCase("", k, cycles, its, r.Perm(k))
+		// the announced iteration count is only a capacity hint: fewer, as many or more results may arrive
+		announced := pick(r, k, k, k-1, 1+k/2, 2*k, 0, 1)
+		if announced < 0 {
+			announced = 0
+		}
+		a := aggCase(fmt.Sprintf("r%d", i), announced, cycles, its, identity(k))
+		b := aggCase("", announced, cycles, its, r.Perm(k))
 		// periodic flushes (the server pool flushes every few results): statistics are cumulative
 		for nf := r.Intn(3); nf > 0 && k > 1; nf-- {
 			at := 2 + r.Intn(k-1) // after the cfg op and at least one add
